@@ -33,7 +33,7 @@ def shards(tier, seed):
     if tier == "quick":
         n_sh, n, budget = 8, 190, 40
     else:
-        n_sh, n, budget = 16, 2600, 300
+        n_sh, n, budget = 16, 30000, 300
     return [{"name": f"sp{i}", "threads": 1, "timeout": budget * 4 + 300,
              "params": {"seed": seed, "shard": i, "n": n, "budget_s": budget}}
             for i in range(n_sh)]
